@@ -86,8 +86,9 @@ func verifEvent(kind string, t *Tunnel, kv ...any) {
 	}
 	m := map[string]any{"kind": kind, "ns": time.Now().UnixNano()}
 	if t != nil {
+		// only fields that never change after the tunnel was created: the hook
+		// must not add unsynchronised reads of its own
 		m["tunnel"] = fmt.Sprintf("%p", t)
-		m["id"] = t.Id
 		m["rdgid"] = t.RDGId
 	}
 	for i := 0; i+1 < len(kv); i += 2 {
